@@ -97,7 +97,10 @@ fn operand_load(
         } => {
             let reg = get_register(*reg)?;
             let reg_value = reg.get();
-            assert_eq!(reg.bits(), 128);
+            // only the 128-bit vector registers have lanes (not e.g. SVE predicates)
+            if reg.bits() != 128 {
+                return Err(unsupported());
+            }
 
             let (shift, width) = arr_spec_offset_width(arrspec);
 
@@ -183,7 +186,9 @@ fn operand_store(block: &mut il::Block, opr: &bad64::Operand, value: il::Express
             arrspec: Some(arrspec),
         } => {
             let reg = get_register(*reg)?;
-            assert_eq!(reg.bits(), 128);
+            if reg.bits() != 128 {
+                return Err(unsupported());
+            }
 
             let (shift, width) = arr_spec_offset_width(arrspec);
             let is_indexed = is_arr_spec_indexed(arrspec);
